@@ -54,7 +54,8 @@ class Datagroup:
         if self.keys() != other.keys():
             return False
         for key, value in self.items():
-            if all(value != other[key]):
+            # `.norm` reduces a Vector of booleans to a single Array
+            if np.any((value != other[key]).norm.values):
                 return False
         return True
 
